@@ -319,7 +319,31 @@ def replay_target_frame(ns, ob, model):
     return False, dict(note="no rotation of the generic plasmid is modified by target_sequence()", model=model)
 
 
+def replay_isabstract(ns, ob, model):
+    """isabstract on real classes against its definition (abc-abstract, or some attribute is NotImplemented)"""
+    import abc
+    import inspect
+    import six
+    from Bio.Restriction import BsaI
+    core = ns["moclo.core"]
+    fn = ns["moclo._utils"].isabstract if "moclo._utils" in ns else __import__("moclo._utils", fromlist=["isabstract"]).isabstract
+    Concrete = type("Concrete", (core.AbstractPart, core.Entry), dict(cutter=BsaI, signature=("AACC", "GGAT")))
+    NoSig = type("NoSig", (core.AbstractPart, core.Entry), dict(cutter=BsaI))
+    Abc = six.add_metaclass(abc.ABCMeta)(type("Abc", (object,), dict(m=abc.abstractmethod(lambda self: None))))
+    Plain = type("Plain", (object,), dict(x=1))
+    for c in (Concrete, NoSig, Abc, Plain, core.AbstractPart, core.Entry):
+        want = inspect.isabstract(c) or any(getattr(c, a_, None) is NotImplemented for a_ in dir(c))
+        try:
+            got = bool(fn(c))
+        except Exception as e:
+            got = "raised %r" % (e,)
+        if got != want:
+            return True, dict(call="isabstract(%s)" % c.__name__, expected=want, observed=got)
+    return False, dict(note="isabstract agrees with its definition on six probe classes")
+
+
 REPLAY = {
+    "isabstract": replay_isabstract,
     "AbstractModule.target_sequence": replay_target_frame,
     "AbstractVector.target_sequence": replay_target_frame,
     "CircularRecord.__contains__": replay_contains,
